@@ -132,5 +132,73 @@ pub fn run(seed: u64, count: usize) -> Vec<String> {
             none.load().is_none() as u8
         ));
     }
+    reentrant(&mut out);
     out
+}
+
+// ---- a writer runs in the middle of a serialization (C20: the token stream is that of one snapshot,
+// which stays alive until the serialization is over) ----
+
+thread_local! {
+    static HOOK: std::cell::RefCell<Option<Box<dyn Fn()>>> = const { std::cell::RefCell::new(None) };
+}
+static DROPPED: std::sync::atomic::AtomicUsize = std::sync::atomic::AtomicUsize::new(0);
+
+pub struct Hooked {
+    id: u64,
+    tag: String,
+}
+impl Drop for Hooked {
+    fn drop(&mut self) {
+        if self.id == 1 {
+            DROPPED.fetch_add(1, std::sync::atomic::Ordering::SeqCst);
+        }
+    }
+}
+impl Serialize for Hooked {
+    fn serialize<Sr: Serializer>(&self, s: Sr) -> Result<Sr::Ok, Sr::Error> {
+        let mut t = s.serialize_tuple(3)?;
+        t.serialize_element(&self.id)?;
+        // between two fields: whatever the hook does (a store into the container being serialized)
+        let h = HOOK.with(|h| h.borrow_mut().take());
+        if let Some(h) = h {
+            h();
+        }
+        let destroyed = if self.id == 1 { DROPPED.load(std::sync::atomic::Ordering::SeqCst) } else { 0 };
+        t.serialize_element(&destroyed)?;
+        t.serialize_element(&self.tag)?;
+        t.end()
+    }
+}
+
+fn reentrant_one<S>(out: &mut Vec<String>, name: &str, opt: bool)
+where
+    S: arc_swap::strategy::Strategy<Arc<Hooked>> + arc_swap::strategy::Strategy<Option<Arc<Hooked>>> + Default + 'static,
+{
+    DROPPED.store(0, std::sync::atomic::Ordering::SeqCst);
+    let json = if opt {
+        let c: Arc<ArcSwapAny<Option<Arc<Hooked>>, S>> = Arc::new(ArcSwapAny::from(Some(Arc::new(Hooked { id: 1, tag: "first".into() }))));
+        let c2 = Arc::clone(&c);
+        HOOK.with(|h| *h.borrow_mut() = Some(Box::new(move || c2.store(None))));
+        serde_json::to_string(&*c).unwrap()
+    } else {
+        let c: Arc<ArcSwapAny<Arc<Hooked>, S>> = Arc::new(ArcSwapAny::from(Arc::new(Hooked { id: 1, tag: "first".into() })));
+        let c2 = Arc::clone(&c);
+        HOOK.with(|h| *h.borrow_mut() = Some(Box::new(move || c2.store(Arc::new(Hooked { id: 2, tag: "second".into() })))));
+        serde_json::to_string(&*c).unwrap()
+    };
+    let after = DROPPED.load(std::sync::atomic::Ordering::SeqCst);
+    out.push(format!("reentrant strategy={} option={} json={} destroyed_after={}", name, opt as u8, json, after));
+}
+
+fn reentrant(out: &mut Vec<String>) {
+    reentrant_one::<DefaultStrategy>(out, "default", false);
+    reentrant_one::<DefaultStrategy>(out, "default", true);
+    #[allow(deprecated)]
+    {
+        reentrant_one::<FillFastSlots>(out, "fillfast", false);
+        reentrant_one::<FillFastSlots>(out, "fillfast", true);
+    }
+    reentrant_one::<std::sync::RwLock<()>>(out, "rwlock", false);
+    reentrant_one::<std::sync::RwLock<()>>(out, "rwlock", true);
 }
